@@ -28,6 +28,7 @@ def main(argv=None):
     except ValueError:
         seed = 1
     t0 = time.time()
+    os.environ['VERIF_TIER'] = args.tier      # property modules may scale their generators with the tier
 
     try:
         mod = common.load_module(prop_id)
